@@ -254,7 +254,12 @@ func runC10(c *fw.Case) (o fw.Outcome) {
 				err = fmt.Errorf("GetNasPdu returned nil")
 			}
 		} else {
-			got, err = tglib.NASDecode(ue, nas.GetSecurityHeaderType(wire), append([]byte(nil), wire...))
+			wview, wdmg := guarded(r, wire)
+			got, err = tglib.NASDecode(ue, nas.GetSecurityHeaderType(wire), wview)
+			if d := wdmg(true); d != "" { // deciphering in place inside the message is the library's business; beyond it is the caller's memory
+				o.Fail("writes-outside-message", "NASDecode of message %d (%s, header type %d): %s", s, kind, sht, d)
+				return
+			}
 		}
 		o.Count("messages", 1)
 		if err != nil {
